@@ -191,11 +191,9 @@ func opcodeAtomic(high byte, mid byte, low byte) opcode.Opcode {
 }
 
 func addrAddImm(a model.Addr, imm int32) model.Addr {
-	if imm >= 0 {
-		return a + model.Addr(imm)
-	} else {
-		return a - model.Addr(-imm)
-	}
+	// Sign-extension followed by unsigned (wrapping) addition is correct for
+	// every imm including math.MinInt32 which cannot be negated in int32.
+	return a + model.Addr(int64(imm))
 }
 
 func immConst(t immType, i instruction, w expr.Width) expr.Const {
